@@ -725,6 +725,65 @@ end Slicec.Gen
     return text, len(kws) + 1 + len(terms) + sum(len(r) for _, r in prods)
 
 
+
+SLICEC_PANIC_PAT = re.compile(
+    r"\b(todo!|unimplemented!|panic!|unreachable!|assert!|assert_eq!|assert_ne!)\s*\(|\.unwrap\(\)|\.expect\(|\.unwrap_unchecked\(\)|unreachable_unchecked\(\)"
+    r"|\[[^\]\[]*\.\.[^\]\[]*\]|\.split_last\(\)\.unwrap|\.remove\(\d+\)|\.swap_remove\(|\.replace_range\(|\.split_at\(|\.drain\(")
+
+
+def enclosing_fn(src_lines, idx):
+    for j in range(idx, -1, -1):
+        m = re.search(r"\bfn\s+([A-Za-z_][A-Za-z0-9_]*)", src_lines[j])
+        if m and (src_lines[j].lstrip().startswith(("fn", "pub", "unsafe", "async", "const", "pub(")) or " fn " in src_lines[j]):
+            return m.group(1)
+    return "-"
+
+
+def gen_panic_sites(repo):
+    """every panic-capable site in non-test code of slicec/src (macros, unwrap/expect, range slicing), keyed by
+    file + enclosing fn + normalised text; each must have a disposition in translator/ledger/panic_sites.json"""
+    import json
+    T = "PanicSites"
+    base = os.path.join(repo, "slicec", "src")
+    sites = []
+    for dirpath, _, files in sorted(os.walk(base)):
+        for fn in sorted(files):
+            if not fn.endswith(".rs") or fn in ("tests.rs", "verif_hooks.rs"):
+                continue
+            rel = os.path.relpath(os.path.join(dirpath, fn), repo)
+            src = strip_test_modules(read(repo, rel, T))
+            lines = src.splitlines()
+            for i, line in enumerate(lines):
+                st = line.strip()
+                if st.startswith("#[") or st.startswith("debug_assert"):
+                    continue
+                for m in SLICEC_PANIC_PAT.finditer(line):
+                    if m.group(0).startswith("[") and not re.search(r"[A-Za-z_)\]]\s*$", line[:m.start()]):
+                        continue  # an array/slice literal or attribute, not an index expression
+                    norm = re.sub(r"\s+", " ", st)[:90]
+                    key = f"{rel}::{enclosing_fn(lines, i)}::{norm}"
+                    sites.append(key)
+    # number duplicates so keys are unique and stable
+    seen, keys = {}, []
+    for k in sites:
+        seen[k] = seen.get(k, 0) + 1
+        keys.append(k if seen[k] == 1 else f"{k} #{seen[k]}")
+    ledger_path = os.path.join(os.path.dirname(os.path.abspath(__file__)), "ledger", "panic_sites.json")
+    ledger = json.load(open(ledger_path, encoding="utf-8")) if os.path.exists(ledger_path) else {}
+
+    def q(x):
+        return '"' + x.replace("\\", "\\\\").replace('"', '\\"') + '"'
+    rows = []
+    for k in keys:
+        d = ledger.get(k, {})
+        rows.append(f"  ({q(k)}, {q(d.get('disposition', 'unmapped'))})")
+    text = "-- GENERATED by translator/extract.py from slicec/src + translator/ledger/panic_sites.json — do not edit.\nnamespace Slicec.Gen\n" \
+           "/-- (site, disposition): `model:<branch>` the model has this outcome branch; `unreachable:<why>` shown or argued unreachable;\n" \
+           "    `internal:<why>` guards an internal invariant established by earlier phases; `unmapped` = not yet classified -/\n" \
+           "def panicSites : List (String × String) := [\n" + ",\n".join(rows) + "]\nend Slicec.Gen\n"
+    return text, len(keys)
+
+
 TABLES = {
     "Preproc": gen_preproc_tables,
     "EmitFormat": gen_emit_format,
@@ -733,6 +792,7 @@ TABLES = {
     "CodecPanics": gen_codec_panics,
     "Keywords": gen_keywords,
     "HashUses": gen_hash_uses,
+    "PanicSites": gen_panic_sites,
 }
 
 
